@@ -360,7 +360,7 @@ class Report:
             rd = os.path.join(VERIF, "replays", "%s_%s_%d" % (self.prop, self.tier, self.seed))
             shutil.rmtree(rd, ignore_errors=True)
             os.makedirs(rd, exist_ok=True)
-            for n, (key, what, payload) in enumerate(self.violations[:20]):
+            for n, (key, what, payload) in enumerate(self.violations[:40]):
                 with open(os.path.join(rd, "violation_%02d.json" % n), "w") as f:
                     json.dump(dict(property=self.prop, key=key, what=what, **payload), f, indent=1, default=str)
                 for fn, txt in (payload.get("files") or {}).items():
